@@ -101,6 +101,25 @@ def _ts(name):
         return tc.tree_sequence()
     if name == "ts_full":
         return _full_tables().tree_sequence()
+    if name == "ts_ld":
+        # one tree, six sites: three biallelic, one with two mutations, one with none, one biallelic
+        tc = tskit.TableCollection(6.0)
+        for t in (0, 0, 0, 0):
+            tc.nodes.add_row(1, t)
+        tc.nodes.add_row(0, 1)
+        tc.nodes.add_row(0, 2)
+        tc.nodes.add_row(0, 3)
+        for p, c in ((4, 0), (4, 1), (5, 2), (5, 4), (6, 3), (6, 5)):
+            tc.edges.add_row(0, 6, p, c)
+        for j in range(6):
+            tc.sites.add_row(float(j), "0")
+        for site, node in ((0, 4), (1, 0), (2, 5), (3, 4), (3, 0), (5, 2)):
+            par = -1
+            if (site, node) == (3, 0):
+                par = tc.mutations.num_rows - 1
+            tc.mutations.add_row(site, node, "1", parent=par)
+        tc.sort()
+        return tc.tree_sequence()
     raise KeyError(name)
 
 
@@ -593,6 +612,9 @@ def probes(obj):
                                                                           "alleles": ("0",)})]
     elif isinstance(obj, tskit.Variant):
         out = [("decode", {"site_id": 0}), ("copy", {}), ("counts", {}), ("__str__", {}), ("genotypes", None)]
+    elif isinstance(obj, tskit.LdCalculator):
+        out = [("r2_array", {"a": 0, "max_sites": 1}), ("r2_array", {"a": 0}), ("r2_array", {"a": 5, "direction": -1, "max_sites": 1}),
+               ("r2_array", {"a": 1, "max_distance": 0.5}), ("r2", {"a": 0, "b": 1}), ("r2_matrix", {})]
     elif hasattr(obj, "add_row"):
         out = [("__str__", {}), ("ROWS", {}), ("copy", {}), ("asdict", {}), ("clear", {}), ("truncate", {"num_rows": 1})]
     return out
@@ -637,8 +659,16 @@ def do_call(obj, mname, args, objname):
 def consume(r):
     """Touch the result so that lazily broken state is exercised."""
     try:
-        if hasattr(r, "tolist"):
+        if hasattr(r, "tobytes") and hasattr(r, "tolist"):
+            # tobytes() goes through memcpy, which ASan intercepts: an array handed out as a view that is
+            # longer than its allocation is caught here (numpy's own element loads are not instrumented)
+            r.tobytes()
             r.tolist()
+        elif isinstance(r, (tuple, list)):
+            for x in r[:20]:
+                if hasattr(x, "tobytes"):
+                    x.tobytes()
+            str(r)[:10]
         elif hasattr(r, "num_trees") and hasattr(r, "trees"):
             for t in r.trees():
                 t.num_edges
@@ -655,7 +685,7 @@ def consume(r):
 def object_names(tier):
     names = ["mod:tskit", "ts:ts_full", "ts:ts_one", "ts:ts_noedges", "ts:ts_empty", "ts:ts_nosamples",
              "tree:ts_full/null", "tree:ts_full/first", "tree:ts_full/last", "tree:ts_noedges/first",
-             "var:ts_full/undecoded", "var:ts_full/decoded", "ibd:ts_full", "ld:ts_full"]
+             "var:ts_full/undecoded", "var:ts_full/decoded", "ibd:ts_full", "ld:ts_full", "ld:ts_ld"]
     cors = CORRUPTIONS_QUICK if tier == "quick" else CORRUPTIONS_ALL
     names += [f"tc:{c}" for c in cors]
     for t in TABLE_NAMES:
@@ -681,8 +711,8 @@ def shards(tier, seed):
             specs.append(dict(kind="single", obj=name, _resumable=True, part=0, parts=1,
                               pairs=not name.startswith("ts:")))
     for name in object_names(tier):
-        if name.startswith(("tc:", "tree:", "var:", "table:")):
-            specs.append(dict(kind="pair", obj=name, _resumable=True, full=(tier == "thorough")))
+        if name.startswith(("tc:", "tree:", "var:", "table:", "ld:")):
+            specs.append(dict(kind="pair", obj=name, _resumable=True, full=(tier == "thorough" or name.startswith("ld:"))))
     return specs
 
 
